@@ -162,7 +162,7 @@ pub fn run(rep: &Report) {
     rep.assume("accounting is at order-0 granularity and only at quiescent points (no live write transaction); reading pages through the database warms its cache");
     rep.assume("'returns to its previous level' is restated as bounded progress: nothing pending free after all pins are gone and at most 3 empty durable commits");
     let (n, n_churn) = match rep.tier {
-        Tier::Quick => (15_000u64, 400u64),
+        Tier::Quick => (45_000u64, 1_000u64),
         Tier::Thorough => (300_000u64, 6_000u64),
     };
     run_cases(
